@@ -144,10 +144,20 @@ func (l *Listener) Addr() net.Addr {
 // seg, if non-nil, bounds how many bytes each Read of the proxy returns (pipe
 // mode only).
 func (l *Listener) Dial(seg func(avail int) int) (*Client, error) {
+	c, m, err := l.DialRaw(seg)
+	if err != nil {
+		return nil, err
+	}
+	return newClient(c, m), nil
+}
+
+// DialRaw opens a client connection to the proxy without a recorder: the
+// caller reads and writes the conn itself (e.g. to run a TLS handshake).
+func (l *Listener) DialRaw(seg func(avail int) int) (net.Conn, *MonConn, error) {
 	if l.tcp != nil {
 		c, err := net.Dial("tcp", l.tcp.Addr().String())
 		if err != nil {
-			return nil, err
+			return nil, nil, err
 		}
 		if tc, ok := c.(*net.TCPConn); ok {
 			tc.SetNoDelay(true)
@@ -161,7 +171,7 @@ func (l *Listener) Dial(seg func(avail int) int) (*Client, error) {
 		m := l.byRem[key]
 		delete(l.byRem, key)
 		l.mu.Unlock()
-		return newClient(c, m), nil
+		return c, m, nil
 	}
 	l.mu.Lock()
 	l.n++
@@ -173,9 +183,9 @@ func (l *Listener) Dial(seg func(avail int) int) (*Client, error) {
 	select {
 	case l.ch <- m:
 	case <-l.done:
-		return nil, errors.New("h1x: listener closed")
+		return nil, nil, errors.New("h1x: listener closed")
 	}
-	return newClient(cl, m), nil
+	return cl, m, nil
 }
 
 // Client is a raw client connection with a background recorder of every byte
